@@ -33,6 +33,13 @@ import Inkayaku.Props.Translated.FenDecode
 import Inkayaku.Props.Translated.FenFromStr
 import Inkayaku.Props.Translated.FenRoundtrip
 import Inkayaku.Props.Translated.FenWrite
+import Inkayaku.Props.Translated.PgnBuffer
+import Inkayaku.Props.Translated.PgnBytes
+import Inkayaku.Props.Translated.PgnLoops
+import Inkayaku.Props.Translated.PgnTags
+import Inkayaku.Props.Translated.PgnMoves
+import Inkayaku.Props.Translated.PgnIter
+import Inkayaku.Props.Translated.PgnTotal
 /-! Umbrella module: the equivalence theorems between the Rust functions translated on every run (`Gen/Rs/*.lean`, by
 `/verif/translator`) and the hand-written model live in `Props/Translated/*.lean`, one file per Rust source / topic.
 The first ten targets are listed in `Props/Translated/Basic.lean`; round 2 added:
@@ -84,5 +91,24 @@ getters with the four-field defaults), `FenFromStr` (`validate_ranks`, `from_str
 | reader composed, round trip through the translated reader | | `fromFenString`, `printFen`, `C12.print_parse_board` | `rs_fen_read_eq`, `rs_fen_roundtrip_read`, `rs_fen_roundtrip` (translated writer, then translated reader on the writer's `Fen` value) (`FenRoundtrip.lean`) |
 | `From<&Bitboard> for Fen` (writer: rank / file loops with empty-run counting, side, castling letters, e.p. text, clocks, re-parse), `Bitboard::get_colored_piece`, `PlayerState::find_piece_struct_by_square_mask`, `square_to_string`, `Square::from_indices` | `Fen.from`, `Fen.from.for_1/for_2`, `Bitboard.get_colored_piece`, `square_to_string` (`FenWrite`) | `FenBoard.printFen`, `printRank(s)`, `coloredPiece` | `rs_find_piece`, `rs_get_colored_piece_eq`, `rs_for_2`, `rs_for_1`, `rs_square_to_string`, `rs_fen_write_eq` (`FenWrite.lean`; assumptions `PieceTables`, `SquareTables`, `RegexModel`) |
 | `Fen::validate_ranks`, `impl FromStr for Fen` (`from_str`: alias, rank validation, clock checks, construction of the `Fen` value) | `Fen.validate_ranks`, `Fen.from_str` (`FenFromStr`) | `FenSyntax.validateRanks`, `parseChars` | `rs_validate_rank_fuel`, `rs_validate_ranks_eq`, `rs_fen_from_str_eq`, `rs_fen_from_str_startpos` (`FenFromStr.lean`) |
+
+ROUND 5: THE PGN READER (property C17).  Generated module `Pgn` = the whole of pgn/src/reader.rs (`PgnRawParser<R: Read>`), translated in
+MONADIC MODE (translator/src/monadic.rs): every `&mut self` method is a `do` block in the state monad `RsM (PgnRawParser R)` (`none` = panic /
+loop bound exhausted), a `Result` is an `Except` value, `e?` a `match` whose `Err` arm returns, every loop a definition by recursion on a
+counter (`Ctl.ret` = returned from inside the loop, `Ctl.next` = loop ended / `break`).  OPAQUE: `Read::read(&mut self.reader, &mut
+self.current_buffer)` = the function parameter `Read_read`; mapping assumption `ReadModel` (= the model's `Reader.read`: `min buf.len()
+(sched calls) rest.length` bytes to the front of the buffer, `Ok(n)`).  `toRs : Buffered → Rs.PgnRawParser Reader`; `Good` = `C17.Inv` + machine
+bounds (`chunk_size`, `position + remaining stream < 2^64`); `Sim m p rel` = whenever the translated method `m` returns on the image of a `Good`
+state, the model program `p` ends in the corresponding state with a related result (strings = code-point lists `strOf`, error payloads dropped).
+
+| Rust (pgn/src/reader.rs)                                        | generated `Inkayaku.Rs.PgnRawParser.…` (`Pgn`)      | model (`Model/Pgn.lean`)           | theorems (file) |
+|-----------------------------------------------------------------|----------------------------------------------------|------------------------------------|-----------------|
+| `ensure_buffer` (refill, short reads shrink the buffer, `Ok(0)` = eof), `increment_byte` | `ensure_buffer`, `increment_byte` | `Buffered.ensure`, `incr` | `rs_ensure_buffer_eq`, `rs_increment_byte_eq` (exact equalities, no panic), `peek_cases`, `good_run`, `sim_bind` (`PgnBuffer.lean`) |
+| `peek_byte`, `pop_byte`, `skip_byte`, `consume`                 | `peek_byte` …                                      | `peekByte`, `popByte`, `skipByte`, `consume` | `rs_peek_byte_eq`, `rs_pop_byte_eq`, `rs_skip_byte_eq` (total), `rs_consume_sim` (`PgnBytes.lean`) |
+| `skip_blank_lines`, `skip_blank_lines_and_spaces`, `skip_spaces`, `skip_to_next_line`, `read_until`, `read_token` | `….loop_1`, wrappers | `skipBlankLines` …, `readUntil`, `readToken` | `rs_skip_blank_lines_sim`, `rs_skip_blank_lines_and_spaces_sim`, `rs_skip_spaces_sim`, `rs_skip_to_next_line_sim`, `rs_read_until_sim`, `rs_read_token_sim` (`PgnLoops.lean`) |
+| `read_tag_name`, `read_tag_value`, `read_tag_pair_line`, `read_tag_pairs` (`HashMap::insert`) | `read_tag_pairs` … | `readTagPairs` …, `tagInsert` | `hmInsert_tagsOf`, `rs_read_tag_value_sim`, `rs_read_tag_pair_line_sim`, `rs_read_tag_pairs_sim` (`PgnTags.lean`) |
+| `read_braced_annotation`, `read_semicolon_annotation`, `read_move`, `read_moves`, `read_pgn`, `Iterator::next` | `read_move` …, `next` | `readMove`, `readMoves`, `readPgn`, `next` | `rs_read_move_sim`, `rs_read_moves_sim`, `rs_read_pgn_sim`, `rs_pgn_next_eq` (`PgnMoves.lean`) |
+| iteration of `next` over `with_chunk_size(reader, chunk)`       | `with_chunk_size`, `rsItems` (defined in `PgnIter.lean`) | `readAllBuffered`, `readAll`, `C17.chunk_independent` | `rs_with_chunk_size_eq`, `rs_items_eq`, `rs_pgn_chunk_independent` (`PgnIter.lean`) |
+| NO PANIC / fuel adequacy of every method (measure: length of the remaining stream, via `C17.reader_bytes` and the decrease lemmas of `C17.fuel_adequate`) | all of the above | | `TotalF`, `rs_*_total`, `rs_pgn_next_total`, `rs_items_total`, `rs_pgn_reader_correct` (total form of C17 on the regenerated reader) (`PgnTotal.lean`) |
 
 Mutation sanity check of all of these: `/verif/translator/mutation_check.sh`. -/
